@@ -1916,7 +1916,91 @@ fn process_position(base: &Base, node: &Node, pos: &str, acc: &mut Acc) {
             let case = Case { position: pos, expr: &src, info: &dinfo, replay: &rp, blame: &bl, wrong_alone: &wa, zero_origin: &zo };
             judge(acc, &case, &v[0].0, v[0].1.as_ref());
         }
+        "emit-enum" | "emit-case" | "emit-global" => process_emitted(&case, pos, acc),
         _ => acc.count("unknown_position"),
+    }
+}
+
+const EMIT_POSITIONS: [&str; 3] = ["emit-enum", "emit-case", "emit-global"];
+
+/// `-?digits[uUlL]*` -> value
+fn parse_emitted_int(t: &str) -> Option<i128> {
+    let t = t.trim();
+    let (neg, d) = match t.strip_prefix('-') {
+        Some(r) => (true, r.trim_start()),
+        None => (false, t),
+    };
+    let digits = d.trim_end_matches(|c| matches!(c, 'u' | 'U' | 'l' | 'L'));
+    if digits.is_empty() || !digits.bytes().all(|b| b.is_ascii_digit()) {
+        return None;
+    }
+    let v: i128 = digits.parse().ok()?;
+    Some(if neg { -v } else { v })
+}
+
+/// the constant the compiler evaluated must come out of both exporters with the value it has (C13: "yields the value HLSL
+/// defines"; the exporters print evaluated constants in enum definitions, case labels and folded initialisers)
+fn process_emitted(case: &Case, pos: &str, acc: &mut Acc) {
+    use crate::util::{Cfg, Mode, compile1};
+    let v = match definite(case.info) {
+        Some(v) => v,
+        None => {
+            acc.count("emitted_skipped_no_definite_value");
+            return;
+        }
+    };
+    let n = match v.int() {
+        Some(n) => n,
+        None => return,
+    };
+    let (src, key, end) = match pos {
+        "emit-enum" => (format!("{}enum Q {{ QA = {} }};\nint f() {{ return (int)QA; }}\n", PRELUDE, case.expr), "QA = ", ','),
+        "emit-case" => {
+            let sw = if matches!(v, Val::Un(_) | Val::Eu(_)) { "uint" } else { "int" };
+            (format!("{}int f({} x) {{ switch (x) {{ case {}: return 1; default: return 0; }} }}\n", PRELUDE, sw, case.expr), "case ", ':')
+        }
+        _ => {
+            let ty = match v {
+                Val::Un(_) | Val::Eu(_) => "uint",
+                Val::L(x) if x > i32::MAX as i128 => "uint",
+                _ => "int",
+            };
+            (format!("{}static const {} GG = {};\nint f() {{ return (int)GG; }}\n", PRELUDE, ty, case.expr), "GG = ", ';')
+        }
+    };
+    // values a conversion to the 32-bit type of the position may produce from an untyped literal
+    let accepted: Vec<i128> = match v {
+        Val::L(x) => vec![x, x as i32 as i128, x as u32 as i128],
+        _ => vec![n],
+    };
+    for cfg in [Cfg::Dx, Cfg::Msl] {
+        acc.add("compilation_units", 1);
+        match guard(|| compile1(&src, cfg, Mode::NoPipeline)) {
+            Err(p) => violation(
+                acc,
+                format!("emitted|{}|panic|{}|{}", pos, file_class(&p), msg_norm(&p)),
+                format!("[{}] compiling `{}` (value {}) for {} aborts: {} ({})", pos, case.expr, n, cfg.name(), p.message, p.file),
+                case,
+            ),
+            Ok(Err(_)) => acc.count("emitted_front_end_rejects"),
+            Ok(Ok(ps)) => {
+                let text = ps.first().map(|p| String::from_utf8_lossy(&p.data).to_string()).unwrap_or_default();
+                let lit = text.find(key).map(|i| &text[i + key.len()..]).and_then(|r| r.find(|c| c == end || c == '\n').map(|j| r[..j].to_string()));
+                match lit.as_deref().and_then(parse_emitted_int) {
+                    None => acc.count("emitted_not_a_literal"),
+                    Some(got) if accepted.contains(&got) => {
+                        acc.count("emitted_value_agrees");
+                        acc.outcome(&("emitted", pos, cfg.name(), got));
+                    }
+                    Some(got) => violation(
+                        acc,
+                        format!("emitted|{}|wrong-value|{}|{}", pos, v.ty().name(), cfg.name()),
+                        format!("[{}] `{}` has the value {} but {} output spells it `{}` = {}", pos, case.expr, n, cfg.name(), lit.unwrap_or_default().trim(), got),
+                        case,
+                    ),
+                }
+            }
+        }
     }
 }
 
@@ -2194,6 +2278,20 @@ pub fn run(ctx: &Ctx) -> i32 {
             }
         });
         rep.absorb("positions", r);
+    }
+
+    // E: emitted constants — the same candidates printed by both exporters
+    {
+        let off = offset + chosen.len() as u64 * POSITIONS.len() as u64 + nleaf as u64;
+        let total = chosen.len() as u64 * EMIT_POSITIONS.len() as u64;
+        let b = &base;
+        let r = run_par(ctx, total, 64, |idx, acc| {
+            acc.cur_index = off + idx;
+            let id = chosen[(idx / EMIT_POSITIONS.len() as u64) as usize];
+            let pos = EMIT_POSITIONS[(idx % EMIT_POSITIONS.len() as u64) as usize];
+            process_position(b, &b.nodes[id as usize], pos, acc);
+        });
+        rep.absorb("emitted_constants", r);
     }
 
     // enum successor
